@@ -58,7 +58,8 @@ def behaviour(ctx, r, prog, n):
                 o = r.call({"prog": pn, "op": "ep:reply", "reply": rep, "world": world, "env": env, "plan": None})
                 ctx.ev()
                 evs = o.get("events", [])
-                if [e["handler"] for e in evs] != ["c.reply.reply"] or json.loads(evs[0]["args"][0][1]) != rep \
+                lhid = next(h["hid"] for h in c["handlers"] if h.get("legacy"))
+                if [e["handler"] for e in evs] != [lhid] or json.loads(evs[0]["args"][0][1]) != rep \
                         or evs[0]["storage_probe"] != world["probe"] or o.get("new_calls") != 1:
                     ctx.violate("legacy-reply", f"{pn}: legacy reply entry point did not forward the reply to the reply method", {"prog": pn, "reply": rep, "obs": o})
                 else:
@@ -202,6 +203,10 @@ def run(ctx):
             behaviour(ctx, r, p, n)
     fam.each_bin(per_bin)
     gen.each_bin(lambda b, progs, r: [behaviour(ctx, r, p, 2) for p in progs[:ctx.pick(1, 6)]])
+    # generic contracts: entry points are generated for the concrete types named in entry_points(generics<..>)
+    gfam = ctx.family("generic")
+    gfam.each_bin(lambda b, progs, r: [behaviour(ctx, r, p, 3) for p in progs])
+    ctx.cov["generic_programs"] = len(gfam.progs)
     existence(ctx, fam)
     structure(ctx)
     ctx.cov["configurations"] = len(fam.progs)
